@@ -292,6 +292,7 @@ def r6_r7_layers(run, tree):
     run.rule("C05.R6", "axis separation (x kernel arguments from x only, y from y only); default layer counts points; one slot per layer; "
              "mean = sum / counts; mask = (counts == 0)", "D7 fold of histogram2d", "", floor=2)
     hf.check_hist2d(run, tree, aspects=("layers",))
+    hf.check_hist2d_history(run, tree)
 
 
 RULES = [r1_no_shared_rmw, r2_kernel_index_logic, r5_limits, r6_r7_layers]
